@@ -1,6 +1,6 @@
-(* C03 - property theorems only (proofs in Manager/ManagerProofs.v, Manager/RoomsProofs.v) *)
+(* C03 - property theorems only (proofs in Manager/ManagerProofs.v, Manager/RoomsProofs.v, Manager/ServerWFProofs.v) *)
 From VT Require Import Manager.Manager Manager.ManagerProofs Manager.RoomsSpec Check.C03Check
-                       Manager.RoomsProofs.
+                       Manager.RoomsProofs Manager.ServerWFProofs.
 From Coq Require Import Permutation.
 Open Scope N_scope.
 
@@ -68,6 +68,18 @@ Theorem C03_wf_counter : forall ops ids,
 Proof. exact C03_wf_counter_thm. Qed.
 Print Assumptions C03_wf_counter.
 
+(* WF in every state reachable through the SERVER model, when the room names used by API
+   operations and by scripted handler actions are application names of the domain (name_ok) *)
+Theorem C03_wf_server_step : forall c s o,
+  cfg_rooms_ok c -> op_rooms_ok o -> SInv s -> SInv (fst (step c s o)).
+Proof. exact step_SInv. Qed.
+Print Assumptions C03_wf_server_step.
+
+Theorem C03_wf_server_run : forall c ops,
+  cfg_rooms_ok c -> Forall op_rooms_ok ops -> WF (mg (fst (run c srv_init ops))).
+Proof. exact C03_wf_server_run_thm. Qed.
+Print Assumptions C03_wf_server_run.
+
 (* ---- B. recipients ---- *)
 Theorem C03_recipients : forall m ns target skip l,
   WF m -> participants m ns target = Ok l ->
@@ -116,6 +128,17 @@ Theorem C03_exec_rooms_ok : forall c s sid ns,
   c03_step c s o (snd (step c s o)) = true.
 Proof. exact C03_exec_rooms. Qed.
 Print Assumptions C03_exec_rooms_ok.
+
+(* ... in every reachable state, without a premise on the state *)
+Theorem C03_exec_reachable : forall c ops,
+  cfg_rooms_ok c -> Forall op_rooms_ok ops ->
+  let s := fst (run c srv_init ops) in
+  (forall ev data to room skip ns,
+     c03_step c s (ApiEmit ev data to room skip ns None)
+              (snd (step c s (ApiEmit ev data to room skip ns None))) = true) /\
+  (forall sid ns, c03_step c s (ApiRooms sid ns) (snd (step c s (ApiRooms sid ns))) = true).
+Proof. exact C03_exec_reachable_thm. Qed.
+Print Assumptions C03_exec_reachable.
 
 (* ---- C. rooms(sid) and the frame lemmas ---- *)
 Theorem C03_rooms_listing : forall m sid ns,
